@@ -149,7 +149,9 @@ def poly_case(draw, tier="quick"):
     return {"kind": kind, "idx": idx, "radii": radii, "off": [draw(C.ints(4)), draw(C.ints(4))], "embed": draw(st.sampled_from([None, None, "3d"])),
             "frame": [draw(C.ints(3)) for _ in range(9)], "rot": draw(st.integers(0, 6)), "rev": draw(st.booleans()), "api": draw(st.sampled_from(["single", "collection"])),
             "scales": [draw(C.scale()) for _ in range(7)], "scaled": draw(st.sampled_from([False, False, True])),
-            "derive": draw(st.sampled_from(Z.DERIVATIONS)), "move": [draw(st.integers(-4, 4)) for _ in range(3)]}
+            "derive": draw(st.sampled_from(Z.DERIVATIONS)), "move": [draw(st.integers(-4, 4)) for _ in range(3)],
+            # coordinates k/den: for den = 10, 3, 7 the floats are not dyadic fractions with short mantissas, so the arithmetic inside the library is inexact
+            "den": draw(st.sampled_from([1, 1, 1, 10, 3, 7])), "axisplane": draw(st.sampled_from([None, 0, 1, 2]))}
 
 
 def polygon2(c):
@@ -180,6 +182,10 @@ def embed(c, pts2):
     o = np.array(c["frame"][0:3], float)
     u = np.array(c["frame"][3:6], float)
     w = np.array(c["frame"][6:9], float)
+    if c.get("axisplane") is not None:
+        # a plane parallel to two coordinate axes: the projection inside the library keeps the two in-plane coordinates as they are
+        k = c["axisplane"]
+        o, u, w = np.roll([0.0, 0.0, o[2] / c.get("den", 1)], k), np.roll([1.0, 0.0, 0.0], k), np.roll([0.0, 1.0, 0.0], k)
     if np.linalg.matrix_rank(np.stack([u, w])) < 2:
         raise Skip("degenerate frame")
     return o, u, w
@@ -216,19 +222,29 @@ def run_poly(c):
         return "interior" if t else "exterior"
 
     cls = [classify(q, t) for q, t in zip(qs, truth)]
+    den = c.get("den", 1)
+    if den != 1:
+        # the floats k/den are not the rationals k/den: a query meant to lie on an edge lies within one rounding error of it, and the
+        # exact answer for the floats is a matter of that rounding error.  Every other query is at least 1/(12 den) away from the
+        # boundary, the lattice answer is the answer for the floats, and a query level with a vertex has exactly the vertex' ordinate
+        keep = [i for i, x in enumerate(cls) if x != "edge"]
+        qs = [qs[i] for i in keep]
+        truth = truth[keep]
+        cls = [cls[i] for i in keep]
 
     def h3(p2):
+        x, y = float(p2[0]) / den, float(p2[1]) / den
         if emb is None:
-            return np.array([float(p2[0]), float(p2[1]), 1.0])
+            return np.array([x, y, 1.0])
         o, u, w = emb
-        return np.append(o + float(p2[0]) * u + float(p2[1]) * w, 1.0)
+        return np.append(o + x * u + y * w, 1.0)
 
     sc = [C.scale_value(s) for s in c["scales"]]
     V = np.array([h3(p) * (sc[i % 7] if c.get("scaled") else 1) for i, p in enumerate(verts)])
     Q = np.array([h3(q) for q in qs])
     kind = c["kind"]
     dim = 2 if emb is None else 3
-    site0 = f"{kind}{dim}" + (":scaled-vertices" if c.get("scaled") else "")
+    site0 = f"{kind}{dim}" + (":scaled-vertices" if c.get("scaled") else "") + (":non-dyadic-coordinates" if den != 1 else "")
     how = c.get("derive")
     if how:
         site0 += f":derived({how})"
@@ -283,7 +299,7 @@ def run_poly(c):
                 fails.append((f, c))
             elif np.asarray(r1).shape != (2,) or not np.all(np.asarray(r1) == tall[0]):
                 fails.append((mismatch(site0 + ":single-point-vs-collection", np.asarray(r1).tolist()), c))
-            if emb is not None:
+            if emb is not None and den == 1 and c.get("axisplane") is None:
                 # ... and against two polygons in different planes: the second one is the image under the cyclic coordinate
                 # permutation (x, y, z) -> (y, z, x); a point P lies in it iff the pre-image of P lies in the first polygon
                 perm = [1, 2, 0, 3]
@@ -356,8 +372,10 @@ def run_poly(c):
         labels["reversed"] = 1
     if how:
         labels["derived-from-a-queried-object"] = 1
-    if kind == "collection" and emb is not None:
+    if kind == "collection" and emb is not None and den == 1 and c.get("axisplane") is None:
         labels["single-point-vs-polygons-in-two-planes"] = 1
+    if den != 1 and "level-with-vertex" in call_cls:
+        labels["non-dyadic:level-with-vertex" + (":3d" if emb is not None else "")] = call_cls.count("level-with-vertex")
     nt = sum(1 for x in call_cls if x in ("vertex", "edge", "edge-extension", "level-with-vertex"))
     return Batch(len(Qall), nt, fails, [], labels)
 
@@ -428,7 +446,7 @@ LAWS = [
         rule="Segment.contains on the whole parameter grid t = k/4 in [-1.5, 2.5], off-line points, rays"),
     Law("polygon_contains", None, None, drive=drive_factory(poly_case, run_poly, "polygon_contains"), budget={"quick": 500, "thorough": 10000}, shard=40,
         rule="Polygon/Triangle/Rectangle/PolygonCollection.contains on the full (half-)lattice grid of the enlarged bounding box; 2D and embedded in 3D; rotations/reversal of the vertex cycle",
-        mandatory=("vertex", "edge", "edge-extension", "level-with-vertex", "non-convex", "triangle", "reversed", "single-point-vs-polygons-in-two-planes")),
+        mandatory=("vertex", "edge", "edge-extension", "level-with-vertex", "non-convex", "triangle", "reversed", "single-point-vs-polygons-in-two-planes", "non-dyadic:level-with-vertex", "non-dyadic:level-with-vertex:3d")),
 ]
 REPLAY = {"segment_contains": replay_batch(run_seg), "polygon_contains": replay_batch(run_poly)}
 
